@@ -98,7 +98,7 @@ func encodingGlobal(v ssa.Value) string {
 
 func ruleC09(c *Ctx, r *Report) {
 	an := c.anchors()
-	if !requireAnchors(r, an, "C09-anchor") {
+	if !requireAnchors(r, an, "C09-anchor", "decrypt") {
 		return
 	}
 	enc, dec := c.Fn("Encrypt"), c.Fn("Decrypt")
@@ -368,7 +368,7 @@ func isNondeterministic(k string) bool {
 
 func ruleC10(c *Ctx, r *Report) {
 	an := c.anchors()
-	if !requireAnchors(r, an, "C10-anchor") {
+	if !requireAnchors(r, an, "C10-anchor", "redact") {
 		return
 	}
 	enc := c.Fn("Encrypt")
@@ -578,6 +578,9 @@ func ruleC10(c *Ctx, r *Report) {
 		r.Check(len(ends) == 0, "C10-R4", cl.Name()+":encrypt-mode-implies-key", c.InstrPos(se), "every path from SetShouldEncrypt to a processing call installs a generated or validated key (err==nil) or exits non-zero", fmt.Sprintf("processing reachable in encrypt mode without a validated key being installed: %v", where))
 	}
 	keyFunctionsErrorDiscipline(c, r, "C10-R4")
+	if rk := c.Fn("ReadKeyFromFile"); rk != nil {
+		keyReaderShapeRule(c, r, rk, "C10-R4")
+	}
 	encryptHonouredRule(c, r, an, "C10-R5")
 }
 
@@ -633,6 +636,11 @@ func encryptHonouredRule(c *Ctx, r *Report, an *Anchors, rule string) {
 		for _, call := range c.callersOf(an.StreamFn) {
 			streamCallers[fnFullName(call.Parent())] = true
 		}
+	}
+	if len(streamCallers) == 0 {
+		// the scan loop is not recognisable: fall back to the exported channel functions
+		streamCallers[c.pkgFn("ProcessMongoLogFile")] = true
+		streamCallers[c.pkgFn("ProcessMongoLogFileFromReader")] = true
 	}
 	for _, call := range callsIn(cl, func(k string, _ *ssa.Call) bool { return streamCallers[k] }) {
 		dom := false
